@@ -989,20 +989,14 @@ pub async fn commit_compaction(
         return Ok(CompactionMetrics::default());
     }
 
+    // Indices of a table with stable row ids reference row ids, and compaction preserves those:
+    // there is nothing to remap, neither now nor later. A fragment reuse index maps row
+    // *addresses*; recording one here would make readers "remap" the stable ids stored in the
+    // indices as if they were addresses and drop rows from index answers.
+    let defer_index_remap =
+        options.defer_index_remap && !dataset.manifest.uses_stable_row_ids();
     // If we aren't using stable row ids, then we need to remap indices.
-    let needs_remapping = !dataset.manifest.uses_stable_row_ids() && !options.defer_index_remap;
-
-    let mut completed_tasks = completed_tasks;
-    if dataset.manifest.uses_stable_row_ids() && options.defer_index_remap {
-        // With stable row ids the rewritten fragments have no ids yet (rewrite_files reserves them
-        // only for address-style ids). The fragment reuse index and the index fragment bitmaps
-        // built below record these ids, so they must be reserved before, not left at 0.
-        let new_fragments = completed_tasks
-            .iter_mut()
-            .flat_map(|task| task.new_fragments.iter_mut())
-            .collect::<Vec<_>>();
-        reserve_fragment_ids(dataset, new_fragments.into_iter()).await?;
-    }
+    let needs_remapping = !dataset.manifest.uses_stable_row_ids() && !defer_index_remap;
 
     let mut rewrite_groups = Vec::with_capacity(completed_tasks.len());
     let mut metrics = CompactionMetrics::default();
@@ -1019,7 +1013,7 @@ pub async fn commit_compaction(
         };
         if needs_remapping {
             row_id_map.extend(task.row_id_map.unwrap());
-        } else if options.defer_index_remap {
+        } else if defer_index_remap {
             frag_reuse_groups.push(FragReuseGroup {
                 changed_row_addrs: task.changed_row_addrs.unwrap(),
                 old_frags: task.original_fragments.iter().map(|f| f.into()).collect(),
@@ -1052,7 +1046,7 @@ pub async fn commit_compaction(
                 new_index_version: rewritten.index_version,
             })
             .collect()
-    } else if !options.defer_index_remap {
+    } else if !defer_index_remap {
         // We need to reserve fragment ids here so that the fragment bitmap
         // can be updated for each index.
         let new_fragments = rewrite_groups
@@ -1065,7 +1059,7 @@ pub async fn commit_compaction(
         Vec::new()
     };
 
-    let frag_reuse_index = if options.defer_index_remap {
+    let frag_reuse_index = if defer_index_remap {
         Some(build_new_frag_reuse_index(dataset, frag_reuse_groups, new_fragment_bitmap).await?)
     } else {
         None
